@@ -84,6 +84,12 @@ def layouts(tier):
         out.append({'id': 'two-children-' + kind, 'subs': [sg('PAR', 'NONE', 162000, 270000, 7, 8, 600, 600, kind, 0),
                                                             sg('CH1', 'PAR', 162000 + 600, 270000 + 600, 7, 5, 150, 150, kind, 1),
                                                             sg('CH2', 'PAR', 162000 + 2400, 270000 + 2400, 4, 9, 150, 150, kind, 2)]})
+    # three levels of nesting (grandchild) next to a disjoint grid in the other hemisphere
+    for kind in ('linear', 'biquadratic'):
+        out.append({'id': 'three-level-' + kind, 'subs': [sg('TOP', 'NONE', -108000, -540000, 6, 7, 600, 600, kind, 0),
+                                                           sg('MID', 'TOP', -108000 + 600, -540000 + 600, 11, 11, 120, 120, kind, 1),
+                                                           sg('FINE', 'MID', -108000 + 840, -540000 + 960, 9, 7, 30, 30, kind, 2),
+                                                           sg('FAR', 'NONE', 162000, 270000, 4, 4, 300, 300, kind, 3)]})
     return out
 
 
